@@ -80,7 +80,8 @@ static int vp_sink_idx(const struct evbuffer *b)
 	__CPROVER_assume(0);
 	return 0;
 }
-#define VP_SINK_CHECK(b) VP_ASSERT(vp_sink_live[vp_sink_idx(b)], "evbuffer sink: use of a freed evbuffer")
+/* liveness is kept in the buffer itself (refcnt 1 = live, 0 = freed): no table lookup on the hot path */
+#define VP_SINK_CHECK(b) VP_ASSERT((b)->refcnt == 1, "evbuffer sink: use of a freed (or foreign) evbuffer")
 
 /* result of a transfer of at most `count` (>=1) bytes */
 static long vp_sink_io_result(size_t count)
@@ -112,7 +113,13 @@ static void vp_sink_run_callbacks(struct evbuffer *b, size_t n_added, size_t n_d
 		VP_ASSERT(guard++ < VP_SINK_NCB, "evbuffer sink: callback list longer than the pool");
 		if ((cbent->flags & EVBUFFER_CB_ENABLED) != EVBUFFER_CB_ENABLED)
 			continue;
+#ifdef VP_SINK_DISPATCH
+		/* the harness names the callbacks that can be installed (direct calls: cbmc's function-pointer removal would
+		 * otherwise consider every function with a loosely matching signature) */
+		VP_SINK_DISPATCH(cbent->cb.cb_func, b, &info, cbent->cbarg);
+#else
 		cbent->cb.cb_func(b, &info, cbent->cbarg);
+#endif
 	}
 }
 
@@ -129,9 +136,8 @@ struct evbuffer *evbuffer_new(void)
 }
 void evbuffer_free(struct evbuffer *b)
 {
-	int i = vp_sink_idx(b);
-	VP_ASSERT(vp_sink_live[i], "evbuffer sink: evbuffer freed twice");
-	vp_sink_live[i] = 0;
+	VP_ASSERT(b->refcnt == 1, "evbuffer sink: evbuffer freed twice");
+	b->refcnt = 0;
 	vp_sink_free_calls++;
 }
 size_t evbuffer_get_length(const struct evbuffer *b)
@@ -309,17 +315,16 @@ int evbuffer_remove_buffer(struct evbuffer *src, struct evbuffer *dst, size_t da
 	EVBUFFER_LOCK(src); EVBUFFER_LOCK(dst);
 	if (datlen == 0 || dst == src) { EVBUFFER_UNLOCK(dst); EVBUFFER_UNLOCK(src); return 0; }
 	if (dst->freeze_end || src->freeze_start) { EVBUFFER_UNLOCK(dst); EVBUFFER_UNLOCK(src); return -1; }
-	if (datlen >= src->total_len) {
-		datlen = src->total_len;
+	{
+		/* everything: evbuffer_add_buffer order (src callbacks, then dst); a proper prefix: dst, then src */
+		int all = datlen >= src->total_len;
+		if (all) datlen = src->total_len;
 		if (datlen) {
 			vp_sink_move_raw(dst, src, datlen);
-			vp_sink_run_callbacks(src, 0, datlen);
+			if (all) vp_sink_run_callbacks(src, 0, datlen);
 			vp_sink_run_callbacks(dst, datlen, 0);
+			if (!all) vp_sink_run_callbacks(src, 0, datlen);
 		}
-	} else {
-		vp_sink_move_raw(dst, src, datlen);
-		vp_sink_run_callbacks(dst, datlen, 0);
-		vp_sink_run_callbacks(src, 0, datlen);
 	}
 	EVBUFFER_UNLOCK(dst); EVBUFFER_UNLOCK(src);
 	return (int)datlen;
